@@ -65,7 +65,15 @@ pub fn run_child(c: &BigCase, timeout: Duration) -> ChildOutcome {
     }
 }
 
-fn first_violation(o: &ChildOutcome, known: &KnownFindings) -> Option<(String, String)> {
+/// a crash of the child as a violation (the detail carries the case, and a tag for the one class of
+/// input that is a recorded finding: a plain chain with a very long run of consecutive Ephemerals)
+fn crash_violation(c: &BigCase, m: &str) -> crate::driver::Violation {
+    let run = longest_ephemeral_run(c);
+    let tag = if run >= 50_000 { " :: deep-ephemeral-chain" } else { "" };
+    crate::driver::Violation { prop: "C19", clause: "crash".into(), detail: format!("{} :: {} :: longest run of consecutive Ephemerals {}{}", m, describe_big(c), run, tag) }
+}
+
+fn first_violation(c: &BigCase, o: &ChildOutcome, known: &KnownFindings) -> Option<(String, String)> {
     match o {
         ChildOutcome::Ok(r) => {
             for (step, sig, d) in r.violations.iter() {
@@ -77,7 +85,13 @@ fn first_violation(o: &ChildOutcome, known: &KnownFindings) -> Option<(String, S
             }
             None
         }
-        ChildOutcome::Crash(m) => Some(("C19/crash".to_string(), m.clone())),
+        ChildOutcome::Crash(m) => {
+            let v = crash_violation(c, m);
+            if known.matches(&v).is_some() {
+                return None;
+            }
+            Some(("C19/crash".to_string(), v.detail))
+        }
         ChildOutcome::Timeout => None,
     }
 }
@@ -125,7 +139,10 @@ pub fn run_c19(cases: usize, max_n: usize, seed: u64, threads: usize, timeout: D
                 if i >= all.len() {
                     break;
                 }
-                let o = run_child(&all[i], timeout);
+                // the probe of the recorded finding either dies at once or (should the recursion ever be
+                // removed) runs for many minutes: a short budget, inconclusive when exceeded
+                let t = if longest_ephemeral_run(&all[i]) >= 50_000 { timeout.min(Duration::from_secs(30)) } else { timeout };
+                let o = run_child(&all[i], t);
                 results.lock().unwrap().push((i, o));
             });
         }
@@ -172,10 +189,14 @@ pub fn run_c19(cases: usize, max_n: usize, seed: u64, threads: usize, timeout: D
                 }
             }
             ChildOutcome::Timeout => run.timeouts += 1,
-            ChildOutcome::Crash(_) => {}
+            ChildOutcome::Crash(m) => {
+                if known.matches(&crash_violation(c, m)).is_some() {
+                    run.known_hits += 1;
+                }
+            }
         }
         if failing.is_none() {
-            if let Some((sig, d)) = first_violation(o, &known) {
+            if let Some((sig, d)) = first_violation(c, o, &known) {
                 failing = Some((*i, sig, d));
             }
         }
@@ -184,10 +205,10 @@ pub fn run_c19(cases: usize, max_n: usize, seed: u64, threads: usize, timeout: D
         let sig0 = sig.clone();
         let mut pred = |c: &BigCase| -> bool {
             let o = run_child(c, timeout);
-            matches!(first_violation(&o, &known), Some((s, _)) if s == sig0)
+            matches!(first_violation(c, &o, &known), Some((s, _)) if s == sig0)
         };
         let small = shrink_big(&all[i], &mut pred);
-        let d2 = match first_violation(&run_child(&small, timeout), &known) {
+        let d2 = match first_violation(&small, &run_child(&small, timeout), &known) {
             Some((_, d)) => d,
             None => detail,
         };
